@@ -35,16 +35,17 @@ CONSTANTS Histories,   \* set of histories explored
           NacClasses,  \* subset of {"none", "wang", "gl"}
           Codes        \* code variants: [gvReset : BOOLEAN]; TRUE = GroupVelocity.run resets the direction
 
-VARIABLES pc, hist, nac, code, k,
+VARIABLES pc, hist, nac, fac, code, k,
           gvObj,      \* the shared GroupVelocity instance exists
           gvPert,     \* its stored perturbation: 0 or the index of the query that set it
           dmDir,      \* q_direction the dynamical-matrix object was last run with (0 none)
           hQp, hMesh, hBand,   \* which query's results the holders _qpoints/_mesh/_band_structure contain (0: none)
           res,        \* what each query reported: sequence of [gvp, fdir]
           reread      \* what the holders report at the end: [qp, mesh, band] -> index of query (0: nothing / raises)
-vars == <<pc, hist, nac, code, k, gvObj, gvPert, dmDir, hQp, hMesh, hBand, res, reread>>
+vars == <<pc, hist, nac, fac, code, k, gvObj, gvPert, dmDir, hQp, hMesh, hBand, res, reread>>
 
 B == BOOLEAN
+Factors == {"vasp", "cm", "x37"}
 Q(kind, dir, gv) == [kind |-> kind, dir |-> dir, gv |-> gv]
 Alphabet == {Q("qpoints", d, g) : d \in B, g \in B} \cup {Q("mesh", FALSE, g) : g \in B}
             \cup {Q("band", FALSE, g) : g \in B} \cup {Q("gvq", FALSE, TRUE), Q("direct", FALSE, FALSE)}
@@ -69,6 +70,7 @@ ReqReread(h, rr) == rr.qp = LastOf(h, "qpoints") /\ rr.mesh = LastOf(h, "mesh") 
 (* IMPLEMENTATION: the persistent state and what each call does to it *)
 Init ==
   /\ pc = "query" /\ hist \in Histories /\ nac \in NacClasses /\ code \in Codes
+  /\ fac \in Factors      \* the unit conversion factor is part of the object's state: fixed for the whole history
   /\ k = 1 /\ gvObj = FALSE /\ gvPert = 0 /\ dmDir = 0
   /\ hQp = 0 /\ hMesh = 0 /\ hBand = 0 /\ res = <<>> /\ reread = [qp |-> 0, mesh |-> 0, band |-> 0]
 
@@ -87,7 +89,7 @@ RunQpoints ==      \* _set_group_velocity() on first use; gv_obj.run(qpoints, pe
   /\ dmDir' = DmAfter(Cur.dir)
   /\ res' = Append(res, [gvp |-> IF Cur.gv THEN GvAfter(Cur.dir) ELSE -1, fdir |-> DmAfter(Cur.dir)])
   /\ hQp' = k /\ Advance
-  /\ UNCHANGED <<hist, nac, code, hMesh, hBand, reread>>
+  /\ UNCHANGED <<hist, nac, fac, code, hMesh, hBand, reread>>
 
 RunMesh ==         \* Mesh.run(): _set_phonon, then group_velocity.run(qpoints)
   /\ pc = "query" /\ Cur.kind = "mesh"
@@ -96,7 +98,7 @@ RunMesh ==         \* Mesh.run(): _set_phonon, then group_velocity.run(qpoints)
   /\ dmDir' = 0
   /\ res' = Append(res, [gvp |-> IF Cur.gv THEN GvAfter(FALSE) ELSE -1, fdir |-> 0])
   /\ hMesh' = k /\ Advance
-  /\ UNCHANGED <<hist, nac, code, hQp, hBand, reread>>
+  /\ UNCHANGED <<hist, nac, fac, code, hQp, hBand, reread>>
 
 RunBand ==         \* _solve_dm_on_path: group_velocity.run(path); q_direction = path[0] - path[-1]
   /\ pc = "query" /\ Cur.kind = "band"
@@ -105,7 +107,7 @@ RunBand ==         \* _solve_dm_on_path: group_velocity.run(path); q_direction =
   /\ dmDir' = DmAfter(TRUE)
   /\ res' = Append(res, [gvp |-> IF Cur.gv THEN GvAfter(FALSE) ELSE -1, fdir |-> DmAfter(TRUE)])
   /\ hBand' = k /\ Advance
-  /\ UNCHANGED <<hist, nac, code, hQp, hMesh, reread>>
+  /\ UNCHANGED <<hist, nac, fac, code, hQp, hMesh, reread>>
 
 GvAtQ ==           \* get_group_velocity_at_q: self._group_velocity.run([q])
   /\ pc = "query" /\ Cur.kind = "gvq"
@@ -113,20 +115,20 @@ GvAtQ ==           \* get_group_velocity_at_q: self._group_velocity.run([q])
   /\ gvPert' = GvAfter(FALSE)
   /\ res' = Append(res, [gvp |-> GvAfter(FALSE), fdir |-> -1])
   /\ Advance
-  /\ UNCHANGED <<hist, nac, code, dmDir, hQp, hMesh, hBand, reread>>
+  /\ UNCHANGED <<hist, nac, fac, code, dmDir, hQp, hMesh, hBand, reread>>
 
 Direct ==          \* _set_dynamical_matrix(): new dynamical-matrix object, and a new GroupVelocity if one existed
   /\ pc = "query" /\ Cur.kind = "direct"
   /\ gvPert' = 0 /\ dmDir' = 0
   /\ res' = Append(res, [gvp |-> -1, fdir |-> 0])
   /\ Advance
-  /\ UNCHANGED <<hist, nac, code, gvObj, hQp, hMesh, hBand, reread>>
+  /\ UNCHANGED <<hist, nac, fac, code, gvObj, hQp, hMesh, hBand, reread>>
 
 Reread ==          \* get_qpoints_dict / get_mesh_dict / get_band_structure_dict at the end
   /\ pc = "reread"
   /\ reread' = [qp |-> hQp, mesh |-> hMesh, band |-> hBand]
   /\ pc' = "done"
-  /\ UNCHANGED <<hist, nac, code, k, gvObj, gvPert, dmDir, hQp, hMesh, hBand, res>>
+  /\ UNCHANGED <<hist, nac, fac, code, k, gvObj, gvPert, dmDir, hQp, hMesh, hBand, res>>
 
 Next == RunQpoints \/ RunMesh \/ RunBand \/ GvAtQ \/ Direct \/ Reread
 Spec == Init /\ [][Next]_vars
